@@ -119,6 +119,14 @@ def random_cases(family, rng, count):
                     t += rng.choice([1, 1, 2, 5, 10, 30])
                 out.append({"fn": "repeat", "x": [R(v) for v in ix], "y": [R(Fraction(rng.randint(0, 100))) for _ in ix], "r": rng.randint(2, 12),
                             "container": rng.choice(["int8", "uint8", "int16", "int32"])})
+            if rng.random() < 0.3:
+                # almost, but not exactly, evenly spaced (jitter of 2^-20 relative to the step): the spacing pattern must survive
+                t, jx = Fraction(rng.randint(-8, 8)), []
+                for _ in range(rng.randint(3, 9)):
+                    jx.append(t)
+                    t += 1 + Fraction(rng.choice([-1, 0, 0, 1, 2]), 2 ** 20)
+                if len(set(b_ - a_ for a_, b_ in zip(jx, jx[1:]))) > 1:
+                    out.append({"fn": "repeat", "x": [R(v) for v in jx], "y": [R(Fraction(rng.randint(-20, 20), 4)) for _ in jx], "r": rng.randint(2, 6)})
             if a * b <= 12:
                 out.append({"fn": "repeat2", "x": X, "y": Y, "a": a, "b": b})
         elif family == "truncate":
@@ -173,7 +181,8 @@ def random_cases(family, rng, count):
     # the same requests far from the origin of the time axis (epoch seconds, 2^40): an exact translation, see fnexec.xoff
     for k in out:
         if k["fn"] in ("truncate", "slice_value", "repeat", "interp") and rng.random() < 0.15 \
-                and k.get("container", "array") in ("array", "list") and "xcontainer" not in k and "qcontainer" not in k:
+                and k.get("container", "array") in ("array", "list") and "xcontainer" not in k and "qcontainer" not in k \
+                and all(r[1] <= 256 for r in k["x"]):        # translated abscissae must stay exactly representable
             k["xoff"] = [rng.choice([-1, 1]), rng.choice([31, 40])]
     return out
 
